@@ -303,4 +303,10 @@ and checks them against both operands) is, as translated from the current Python
 theorem bridge_join_begin_apply (j : JoinOp) (l r : Rel) : Gen.Join_begin_apply j l r = joinBeginApply j l r :=
   Bridge.Join_begin_apply_eq j l r
 
+/-- Tie to the source: `Join._finish_apply` (join-identity short-cuts, the refusal of operands in different engines and
+of an unsupported predicate), as translated from the current Python source on this run, is the model's. -/
+theorem bridge_join_finish_apply (j : JoinOp) (l r : Rel) :
+    Gen.Join_finish_apply j l r = binaryFinishApply (.join j) l r :=
+  Bridge.Join_finish_apply_eq j l r
+
 end DafRel.Props.C14
